@@ -6,8 +6,8 @@
 unsigned long nondet_u64(void);
 unsigned long *g_cnt;                 /* the counter of the latch under verification */
 unsigned long g_others_pending;       /* what the other threads still have to count down */
-unsigned long g_my_sets, g_other_sets; struct Promise *g_set_on; unsigned long g_set_value; _Bool g_mine_done, g_promise_built;
-static void vf_havoc_ghosts(void) { g_others_pending = nondet_u64(); g_my_sets = 0; g_other_sets = 0; g_set_on = 0; g_mine_done = 0; g_promise_built = 0; }
+unsigned long g_my_sets, g_other_sets; struct Promise *g_set_on; unsigned long g_set_value; _Bool g_mine_done, g_promise_built; unsigned g_promise_moves;
+static void vf_havoc_ghosts(void) { g_others_pending = nondet_u64(); g_my_sets = 0; g_other_sets = 0; g_set_on = 0; g_mine_done = 0; g_promise_built = 0; g_promise_moves = 0; }
 static void env_step(void) {
   unsigned long d = nondet_u64();
   __CPROVER_assume(d <= g_others_pending);
@@ -48,5 +48,17 @@ __CPROVER_assigns(*g_cnt, g_my_sets, g_set_on, g_set_value, g_promise_built, g_o
 __CPROVER_ensures(*g_cnt == count && g_promise_built && g_other_sets == 0)
 __CPROVER_ensures(g_my_sets == (count == 0 ? 1 : 0))
 __CPROVER_ensures(g_my_sets == 1 ==> g_set_on == &self->_promise)
+;
+/* move constructor: the new latch takes over the counter value and the promise (moved exactly once, from the source's promise);
+ * nothing is notified by the move.  Documented as not concurrent with count_down on the source: no environment. */
+struct Promise *g_move_dst, *g_move_src;
+void Promise_ctor__Sched_RR(struct Promise *dst, struct Promise *src) { g_promise_moves++; g_move_dst = dst; g_move_src = src; }
+void Latch_ctor__Sched_RR(struct Latch *self, struct Latch *other)
+__CPROVER_requires(__CPROVER_is_fresh(self, sizeof(*self)) && __CPROVER_is_fresh(other, sizeof(*other)))
+__CPROVER_requires(g_cnt == (unsigned long *)0 || __CPROVER_pointer_equals(g_cnt, (unsigned long *)&other->_count))
+__CPROVER_requires(g_others_pending == 0 && g_my_sets == 0 && g_promise_moves == 0)
+__CPROVER_assigns(self->_count, g_promise_moves, g_move_dst, g_move_src, g_others_pending, g_other_sets, *g_cnt)
+__CPROVER_ensures(self->_count == other->_count && other->_count == __CPROVER_old(other->_count))
+__CPROVER_ensures(g_promise_moves == 1 && g_move_dst == &self->_promise && g_move_src == &other->_promise && g_my_sets == 0)
 ;
 #endif
